@@ -130,6 +130,8 @@ var defects = []defect{
 		c.m.Tkt.CName.Parts = append(p, "admin")
 	}},
 	{"crealm-mismatch", "reject", func(c *cas) { c.m.Auth.CRealm = "EVIL.REALM" }},
+	// realm names are case sensitive (RFC 4120 6.1): the authenticator names the ticket's realm in another spelling
+	{"crealm-case-mismatch", "reject", func(c *cas) { c.m.Auth.CRealm = swapCase(c.m.Tkt.CRealm) }},
 	{"ctime-future-outside-skew", "reject", func(c *cas) { c.m.Auth.CTime = c.now.Add(skew + time.Second) }},
 	{"ctime-past-outside-skew", "reject", func(c *cas) { c.m.Auth.CTime = c.now.Add(-skew - time.Second) }},
 	{"caddr-mismatch", "reject", func(c *cas) { c.m.Tkt.CAddr = []kmsg.Addr{addrOther} }},
@@ -147,8 +149,58 @@ func defectIndex(name string) int {
 	panic("no defect " + name)
 }
 
+// clientRealm draws the realm of the client (a foreign realm trusted through cross-realm keys). Realm names are case sensitive
+// (RFC 4120 6.1) and KDCs do issue names that are not all upper case, so the spelling varies: all upper case, all lower case,
+// capitalised labels, arbitrary per-letter case. The length is constant (token lengths stay constant for the mutation jobs).
+func clientRealm(rnd *vh.Rand) string {
+	const letters = "client.realm"
+	switch rnd.Intn(4) {
+	case 0:
+		return strings.ToUpper(letters)
+	case 1:
+		return letters
+	case 2:
+		return "Client.Realm"
+	}
+	for {
+		b := []byte(letters)
+		for i := range b {
+			if b[i] != '.' && rnd.Bool() {
+				b[i] -= 'a' - 'A'
+			}
+		}
+		if s := string(b); realmCase(s) == "mixed" {
+			return s
+		}
+	}
+}
+
+// realmCase classifies the spelling of a realm name: "upper", "lower" or "mixed".
+func realmCase(s string) string {
+	switch {
+	case s == strings.ToUpper(s):
+		return "upper"
+	case s == strings.ToLower(s):
+		return "lower"
+	}
+	return "mixed"
+}
+
+func swapCase(s string) string {
+	return strings.Map(func(r rune) rune {
+		switch {
+		case r >= 'a' && r <= 'z':
+			return r - ('a' - 'A')
+		case r >= 'A' && r <= 'Z':
+			return r + ('a' - 'A')
+		}
+		return r
+	}, s)
+}
+
 func base(c *cas, kt []accept.KeytabEntry, uniq string) {
 	now := c.now
+	crealm := clientRealm(c.rnd)
 	sess := kmsg.Key{Type: c.et, Value: pcommon.RefKey(c.rnd, c.et)}
 	sub := kmsg.Key{Type: c.et, Value: pcommon.RefKey(c.rnd, c.et)}
 	cname := kmsg.N(1, "u"+uniq) // unique per presentation: gokrb5's replay cache is a process-wide singleton
@@ -158,12 +210,12 @@ func base(c *cas, kt []accept.KeytabEntry, uniq string) {
 		Realm:      realm,
 		SName:      svcName,
 		Tkt: kmsg.EncTicketPart{
-			Flags: 0x40800000, Key: sess, CRealm: "CLIENT.REALM", CName: cname,
+			Flags: 0x40800000, Key: sess, CRealm: crealm, CName: cname,
 			AuthTime: now.Add(-10 * time.Minute), StartTime: kmsg.T(now.Add(-10 * time.Minute)), EndTime: now.Add(8 * time.Hour),
 			RenewTill: kmsg.T(now.Add(7 * 24 * time.Hour)),
 		},
 		Auth: kmsg.Authenticator{
-			CRealm: "CLIENT.REALM", CName: cname, Cusec: 123456, CTime: now,
+			CRealm: crealm, CName: cname, Cusec: 123456, CTime: now,
 			Cksum:  &kmsg.Cksum{Type: 0x8003, Sum: make([]byte, 24)},
 			Subkey: &sub, SeqNumber: kmsg.U32(0x40000000 | uint32(c.rnd.U64())&0x3fffffff), // fixed encoded width: token lengths are constant
 		},
@@ -276,7 +328,8 @@ var mutFramings = []string{"init-krb5", "init-ms-krb5", "raw-krb5", "resp-krb5"}
 // jobs
 
 type job struct {
-	kind    string // "hdr", "cat", "mut", "rnd", "seq"
+	kind    string    // "hdr", "cat", "mut", "rnd", "seq", "resp", "echo"
+	shape   respShape // resp: the NegTokenResp shape
 	key     string
 	et      int32
 	defect  int // -1 = valid
@@ -556,9 +609,17 @@ type httpObs struct {
 }
 
 func doHTTP(kt *keytab.Keytab, opts []func(*service.Settings), headers []string, cookies []*http.Cookie) httpObs {
+	return doHTTPFrom(kt, opts, headers, cookies, nil)
+}
+
+// doHTTPFrom is doHTTP for a request whose RemoteAddr is *remoteAddr (nil: what httptest sets, 192.0.2.1:1234).
+func doHTTPFrom(kt *keytab.Keytab, opts []func(*service.Settings), headers []string, cookies []*http.Cookie, remoteAddr *string) httpObs {
 	var o httpObs
 	rec := &innerRec{}
 	req := httptest.NewRequest("GET", "http://host.test.gokrb5/protected", nil)
+	if remoteAddr != nil {
+		req.RemoteAddr = *remoteAddr
+	}
 	for _, h := range headers {
 		req.Header.Add("Authorization", h)
 	}
@@ -680,6 +741,12 @@ func judgeHTTP(r *vh.Run, c *httpCtx, o httpObs) string {
 			return "violation"
 		}
 		r.Inc("identity_checked")
+		for _, p := range permitted {
+			if o.id.user == p.user && o.id.domain == p.realm {
+				r.Inc("identity_checked_realm_spelling_" + realmCase(p.realm))
+				break
+			}
+		}
 		for _, cl := range c.classes {
 			r.Inc("served_" + cl)
 		}
@@ -1161,6 +1228,9 @@ func (e *env) genJobs() ([]job, error) {
 			jobs = append(jobs, job{kind: "seq", key: fmt.Sprintf("seq/%s/%d", m, i), variant: m, idx: i, defect: -1})
 		}
 	}
+	// F: the NegTokenResp shape space; G: the wrapper's own response headers sent back
+	jobs = append(jobs, e.genRespJobs()...)
+	jobs = append(jobs, e.genEchoJobs()...)
 	return jobs, nil
 }
 
@@ -1171,15 +1241,17 @@ func (e *env) runJob(j *job) {
 	switch j.kind {
 	case "hdr":
 		e.runHdr(j)
-	case "cat", "mut", "rnd":
+	case "cat", "mut", "rnd", "resp":
 		e.runToken(j)
+	case "echo":
+		e.runEcho(j)
 	case "seq":
 		e.runSeq(j)
 	}
 }
 
 // single presents header values once (or twice for replay cases) without session manager and judges each presentation.
-func (e *env) single(j *job, classes []string, fpClass string, canonical bool, headers []string, replay bool, extra map[string]any) {
+func (e *env) single(j *job, classes []string, fpClass string, canonical bool, headers []string, replay bool, extra map[string]any) (outcomes []string) {
 	r := e.r
 	set := map[string]bool{}
 	cands := lenientDecode(headers)
@@ -1214,6 +1286,7 @@ func (e *env) single(j *job, classes []string, fpClass string, canonical bool, h
 		r.Eval(key, true)
 		c := &httpCtx{key: key, classes: cls, fpClass: fpClass, canonical: canonical, headers: headers, now: now0, want: wants[i], et: j.et, extra: extra}
 		out := judgeHTTP(r, c, obs[i])
+		outcomes = append(outcomes, out)
 		if i == 1 && out == "refused" && !wants[1].accepted && wants[0].accepted {
 			r.Inc("replay_second_presentation_refused")
 		}
@@ -1223,6 +1296,7 @@ func (e *env) single(j *job, classes []string, fpClass string, canonical bool, h
 			r.SampleKind("served-"+cls[0], 1, map[string]any{"case": key, "authorization": trunc(headers), "identity": obs[i].id.user + "@" + obs[i].id.domain})
 		}
 	}
+	return outcomes
 }
 
 func trunc(h []string) []string {
@@ -1333,6 +1407,8 @@ func (e *env) buildFor(j *job) func(variant string) (built, error) {
 			return b, nil
 		case "rnd":
 			return e.randomToken(j, variant)
+		case "resp":
+			return e.buildResp(j, variant)
 		}
 		return built{}, errors.New("no builder")
 	}
@@ -1465,6 +1541,10 @@ func (e *env) runToken(j *job) {
 		extra["framing"], extra["etype"], extra["position"], extra["xor_mask"] = framings[j.framing].name, j.et, j.pos, j.mask
 	case "rnd":
 		classes = []string{"rnd_" + j.variant}
+	case "resp":
+		classes = respClasses(j.shape)
+		fpClass = "resp"
+		extra["neg_token_resp_shape"], extra["etype"] = j.shape.String(), j.et
 	}
 	class := strings.Join(classes, ",")
 	b, err := build("http")
@@ -1710,9 +1790,13 @@ func TestProp(t *testing.T) {
 		return
 	}
 	r.SetRule("Authorization header values built by the reference (ref/kmsg SPNEGO/GSS framing + ref/accept minting), never by gokrb5, presented to spnego.SPNEGOKRB5Authenticate through httptest under a virtual clock: " +
-		"(hdr) absent/empty/foreign-scheme/non-base64/odd spellings around a valid token; (cat) {valid, 12 rejecting defects, 2 neutral variants} x 33 framings (NegTokenInit/NegTokenResp/raw KRB5, empty/foreign/omitted mech lists, missing mechToken, AP-REP and KRB-ERROR mechanism tokens, wrong TOK_IDs) x six etypes; " +
+		"(hdr) absent/empty/foreign-scheme/non-base64/odd spellings around a valid token; (cat) {valid, 15 rejecting defects, 2 neutral variants} x 33 framings (NegTokenInit/NegTokenResp/raw KRB5, empty/foreign/omitted mech lists, missing mechToken, AP-REP and KRB-ERROR mechanism tokens, wrong TOK_IDs) x six etypes; " +
 		"(mut) every prefix and one (thorough: 12, incl. all single-bit flips) substituted value per byte of valid canonical tokens, each against a freshly minted authenticator; (rnd) uniform and structure-aware random tokens, multi-byte edits and splices; " +
-		"(seq) seeded request sequences of length <= 4 with/without cookies under session manager none/working/New-fails/Get-fails. The same tokens are fed to SPNEGO.AcceptSecContext, SPNEGOToken.Verify, NegTokenInit.Verify, NegTokenResp.Verify and KRB5Token.Verify. " +
+		"(seq) seeded request sequences of length <= 4 with/without cookies under session manager none/working/New-fails/Get-fails; " +
+		"(resp) every NegTokenResp shape negState {absent,0,1,2,3,out of range} x supportedMech {absent,KRB5,MS-KRB5,NTLM,SPNEGO} x responseToken {absent,empty,valid/defective/bare AP-REQ,AP-REP,KRB-ERROR,random} x mechListMIC {absent,present}; " +
+		"(echo) every WWW-Authenticate value the wrapper itself answered (200 and 401) sent back as Authorization; " +
+		"(peeraddr) address-restricted tickets (one/two addresses, IPv4/IPv6/both, with NetBIOS entry) over connections from the listed address, a near-miss of the same family, the other family, an IPv4-mapped IPv6 peer and RemoteAddr forms that give no address (bare IP, '@', empty, host name). " +
+		"The client realm of every minted ticket is spelled in upper, lower or mixed case (realm names are case sensitive). The same tokens are fed to SPNEGO.AcceptSecContext, SPNEGOToken.Verify, NegTokenInit.Verify, NegTokenResp.Verify and KRB5Token.Verify. " +
 		"Oracle: lenient extractor (every offset of every base64 reading of the header at which an [APPLICATION 14] element can be read as an AP-REQ) + reference acceptor of C01 + model of the harness session store. distinct = case key; non-trivial = all")
 	r.Assume("reference acceptor ref/accept, reference crypto ref/kcrypto (RFC-vector self-test on every run), reference framing ref/kmsg/spnego.go (self-checked against the acceptor on every run)")
 	r.Assume("the identity is read from the request context under the key \"jcmturner/goidentity\" (= goidentity.CTXKey of goidentity/v6 v6.0.1, what goidentity.FromHTTPRequestContext reads)")
@@ -1727,6 +1811,9 @@ func TestProp(t *testing.T) {
 		"any two length-prefixed byte strings of the token such that the first is a ticket sealed under some keytab key and the reference acceptor takes the second as its authenticator (sealed times, names, skew, addresses, replay judged as usual; " +
 		"unauthenticated labels and ASN.1 structure ignored). This keeps decoder leniencies out of the verdict (Go's encoding/asn1 ignores the length octets of explicit tag wrappers, so single-byte mutations of those are served: observe_*_accepted_only_by_framing_agnostic_reading)")
 	r.Note("a 5xx answer is permitted only for a request during which the harness session store returned an instructed error")
+	r.Note("(peeraddr) 'the service accepts' follows RFC 4120 3.2.3 as modelled by ref/accept: a ticket with a non-empty caddr list is acceptable only from a listed address (type and bytes equal), and not at all when the service does not know the peer's address. " +
+		"The peer address is read leniently: a bare IP literal counts both as that address and as unknown, an IPv4-mapped IPv6 peer as both forms; served is a violation only when no reading accepts. " +
+		"Not judged: lists without any IP entry (observe_peeraddr_caddr_without_ip_entry_*); completeness only for plain IPv4/IPv6 peers")
 
 	e := &env{t: t, r: r, kt: buildKeytab()}
 	e.gkt = keytab.New()
@@ -1783,8 +1870,13 @@ func TestProp(t *testing.T) {
 		r.Require(fmt.Sprintf("served_canonical_et%d", et), 10)
 	}
 	e.configuredAddressCases()
+	e.peerAddressCases()
+	e.requireResp()
 	e.sessionCases()
 	r.Require("identity_checked", 500)
+	for _, sp := range []string{"upper", "lower", "mixed"} {
+		r.Require("identity_checked_realm_spelling_"+sp, 100)
+	}
 	r.Require("refused_agreed", 5000)
 	for _, d := range defects {
 		if d.kind == "reject" && d.name != "replay" {
